@@ -62,6 +62,10 @@ def cases(tier, seed):
             out.append({'k': 'faults', 'prog': name, 'loc': ['line', ln]})
         for fn in fns:
             out.append({'k': 'faults', 'prog': name, 'loc': ['fn', fn]})
+    # another thread writes a variable of the paused function (a closure cell) while the agent handles the hit
+    for ln in (0, 1):
+        for ft in ('single_frame', 'all_frame', 'no_frame'):
+            out.append({'k': 'cell', 'line': ln, 'ft': ft})
     # attaching through the public entry point deep.start(): what the application's own logging set-up produces with and without it
     for setup in ATTACH_SETUPS:
         for order in ('configure-then-attach', 'attach-then-configure'):
@@ -462,6 +466,56 @@ def compare(ctx, base, obs, label, case, feat):
     return True
 
 
+CELL_SRC = '''
+HOOK = []
+def main():
+    count = 0
+    def bump():
+        nonlocal count
+        count += 1
+    HOOK.append(bump)
+    x = 1
+    y = x + 1
+    del HOOK[:]
+    return count
+'''
+
+
+def cell_case(ctx, desc):
+    """main() owns `count`; bump() - run by another thread - is its only writer. While the agent handles a hit in main() (its collection
+    takes a while), the other thread bumps the counter and is done before the agent returns. The update must not be lost: python writes
+    the frame's variables as they were when the trace function was called back into the frame when it returns."""
+    from deep.api.tracepoint.trigger import build_trigger
+    from ..drive import run_installed
+    ns, path = rig.load_program('c01cell', CELL_SRC)
+    line = CELL_SRC.split('\n').index('    x = 1') + 1 + desc['line']
+    bumps = []
+
+    class Push(rig.CapturePush):
+        def push_snapshot(self, snap):
+            # delivery happens inside the agent's handling of the hit: let the application's other thread do its work now
+            if ns['HOOK']:
+                t = threading.Thread(target=ns['HOOK'][0], name='host-bumper')
+                t.start()
+                t.join()
+                bumps.append(1)
+            return rig.CapturePush.push_snapshot(self, snap)
+    agent = rig.Agent(plugins=[], push=Push())
+    agent.install([build_trigger('t', 'c01cell.py', line, {'fire_count': '-1', 'fire_period': '0', 'frame_type': desc['ft']}, ['count'], [])])
+    with rig.VirtualClock():
+        run = run_installed(agent.handler, ns['main'])
+    ctx.case()
+    ctx.nt(('cell', desc['line'], desc['ft']))
+    ctx.outcome(('cell', len(bumps), run.result))
+    if run.exc is not None:
+        ctx.violation('C01/cell/program-raised', f'{run.exc!r}', desc)
+    elif not bumps:
+        ctx.violation('C01/cell/no-hit', 'the tracepoint was not hit', desc)
+    elif run.result != len(bumps):
+        ctx.violation('C01/update-by-another-thread-lost', f'main() owns count = 0, another thread added 1 to it {len(bumps)} time(s) while the agent handled a hit in main(): '
+                      f'main() returns {run.result}', desc)
+
+
 ATTACH_SETUPS = ['none', 'root-handler', 'basicConfig', 'named-logger', 'named-no-propagate', 'dictConfig']
 
 
@@ -607,6 +661,8 @@ def attach_case(ctx, desc):
 def run_case(ctx, desc):
     if desc['k'] == 'attach':
         return attach_case(ctx, desc)
+    if desc['k'] == 'cell':
+        return cell_case(ctx, desc)
     name, loc = desc['prog'], tuple(desc['loc'])
     if name.startswith('g') and name[1:].isdigit():
         progs.generated()
